@@ -1,4 +1,258 @@
 import Ptn.C10.Model
-/-! Property theorems for C10. Only property theorems and non-vacuity examples live here. -/
+import Ptn.C10.Spec
+import Ptn.C10.Lemmas
+import Ptn.C10.Telescoping
+/-! Property theorems for C10 (selection rule of the singular-value truncation).  Only property
+theorems and non-vacuity examples live here; helper lemmas are in `Lemmas.lean`, the
+specification vocabulary (`Desc`, `NonNeg`, `survives`, `Fits`, `capMin`, `renormFactor`) in
+`Spec.lean`.
+
+All theorems quantify over EVERY non-empty, non-negative, descending spectrum `s : List Rat`
+(ties and zeros allowed) and every parameter object that passes the constructor's validation
+(`p.Valid`): `max_bond_dim` a positive integer or infinity, tolerances non-negative, `-inf` or
+`+inf`, every combination of the three flags. -/
 namespace Ptn.C10
+
+/-- **Prefix clause.**  The result is `(c • s[:k], s[k:])` for one `k` with `1 ≤ k ≤ |s|` and
+    `k ≤ max_bond_dim`; `c = 1` unless renormalising, in which case `c = Σs / Σs[:k]`.
+    The only exception is the third alternative: renormalising an all-zero spectrum yields
+    not-a-number entries (`0·0/0`), see `renorm_zero_nan` (recorded as observation F-C10a). -/
+theorem trunc_is_prefix (s : List Rat) (p : Params) (hs : s ≠ []) (hnn : NonNeg s) (hd : Desc s)
+    (hp : p.Valid) :
+    ∃ k, 1 ≤ k ∧ k ≤ s.length ∧ (∀ d, p.maxBond = some d → k ≤ d) ∧
+      ((p.renorm = false ∧ truncate s p = some (.vals (s.take k), s.drop k)) ∨
+       (p.renorm = true ∧ 0 < s.head hs ∧
+          truncate s p = some (.vals ((s.take k).map (renormFactor s k * ·)), s.drop k)) ∨
+       (p.renorm = true ∧ s.head hs = 0 ∧ truncate s p = some (.nans k, s.drop k))) := by
+  obtain ⟨h1, h2, h3⟩ := keptLen_bounds s p hs hp
+  refine ⟨keptLen s p hs, h1, h2, h3, ?_⟩
+  rw [truncate_eq s p hs hnn hd hp]
+  cases hr : p.renorm with
+  | false => left; simp [keptOf]
+  | true =>
+    right
+    have h0 : 0 ≤ s.head hs := hnn _ (List.head_mem hs)
+    by_cases hz : s.head hs = 0
+    · right
+      refine ⟨rfl, hz, ?_⟩
+      simp only [keptOf, if_true]
+      rw [renormalise_zero s _ h2 (sum_take_zero s hs hnn hd hz _)]
+    · left
+      have hpos : 0 < s.head hs := Rat.lt_of_le_of_ne h0 (Ne.symm hz)
+      have hsum : 0 < (s.take (keptLen s p hs)).sum :=
+        rat_lt_of_lt_of_le hpos (head_le_sum_take s hs hnn _ h1)
+      refine ⟨rfl, hpos, ?_⟩
+      simp only [keptOf, if_true]
+      rw [renormalise_pos s _ hsum]
+
+/-- **Value rule.**  Without sum mode the values strictly above `max(rel·s₀, tot)` form a prefix
+    of length `n`, the rule selects exactly that prefix, and the kept prefix has length
+    `min(max(n,1), D)`. -/
+theorem value_rule (s : List Rat) (p : Params) (hs : s ≠ []) (hnn : NonNeg s) (hd : Desc s)
+    (hp : p.Valid) (hv : p.sumTrunc = false) :
+    let n := s.countP (survives p.relTol p.totalTol (s.head hs))
+    (∀ i (hi : i < s.length), survives p.relTol p.totalTol (s.head hs) s[i] = true ↔ i < n) ∧
+    selected s p = s.take n ∧
+    ∃ kept, truncate s p = some (kept, s.drop (capMin (max n 1) p.maxBond)) ∧
+      kept.length = capMin (max n 1) p.maxBond := by
+  intro n
+  have hsel : selLen s p hs = n := by simp [selLen, hv, n]
+  refine ⟨?_, ?_, ?_⟩
+  · intro i hi
+    exact prefix_iff_lt_countP _ s hd (fun a b h hb => survives_mono _ _ _ a b h hb) i hi
+  · rw [selected_eq_take s p hs hnn hd, hsel]
+  · obtain ⟨_, h2, _⟩ := keptLen_bounds s p hs hp
+    have hk : keptLen s p hs = capMin (max n 1) p.maxBond := by simp [keptLen, hsel]
+    refine ⟨keptOf s p.renorm (keptLen s p hs), ?_, ?_⟩
+    · rw [truncate_eq s p hs hnn hd hp, hk]
+    · rw [← hk]; exact keptOf_length s _ _ h2
+
+/-- **Sum rule.**  In sum mode the rule's index `K` is the start of the longest tail whose squared
+    weight (relative to the total when normalising) does not exceed `total_tol²`: the tail `s[K:]`
+    fits and no longer tail does.  (For the all-zero spectrum the code sets `K = 0`: everything is
+    discarded.)  The rule selects `s[:K]` and the kept prefix has length `min(max(K,1), D)`. -/
+theorem sum_rule (s : List Rat) (p : Params) (hs : s ≠ []) (hnn : NonNeg s) (hd : Desc s)
+    (hp : p.Valid) (hv : p.sumTrunc = true) :
+    let K := sumTruncIndex s p.totalTol p.sumRenorm
+    (normSq s = 0 → K = 0) ∧
+    (normSq s ≠ 0 → K ≤ s.length ∧ Fits s p.totalTol p.sumRenorm K ∧
+        ∀ j, j < K → ¬ Fits s p.totalTol p.sumRenorm j) ∧
+    selected s p = s.take K ∧
+    ∃ kept, truncate s p = some (kept, s.drop (capMin (max K 1) p.maxBond)) ∧
+      kept.length = capMin (max K 1) p.maxBond := by
+  intro K
+  have hsel : selLen s p hs = K := by simp [selLen, hv, K]
+  refine ⟨?_, ?_, ?_, ?_⟩
+  · intro h0; simp [K, sumTruncIndex, h0]
+  · intro hne; exact sumTruncIndex_spec s _ _ hne
+  · rw [selected_eq_take s p hs hnn hd, hsel]
+  · obtain ⟨_, h2, _⟩ := keptLen_bounds s p hs hp
+    have hk : keptLen s p hs = capMin (max K 1) p.maxBond := by simp [keptLen, hsel]
+    refine ⟨keptOf s p.renorm (keptLen s p hs), ?_, ?_⟩
+    · rw [truncate_eq s p hs hnn hd hp, hk]
+    · rw [← hk]; exact keptOf_length s _ _ h2
+
+/-- **Keep one.**  If the rule selects nothing, exactly the largest value is kept (rescaled to the
+    total sum when renormalising a non-zero spectrum) and all others are discarded. -/
+theorem keep_one (s : List Rat) (p : Params) (hs : s ≠ []) (hnn : NonNeg s) (hd : Desc s)
+    (hp : p.Valid) (hnone : selected s p = []) :
+    ∃ kept, truncate s p = some (kept, s.tail) ∧
+      (p.renorm = false → kept = .vals [s.head hs]) ∧
+      (p.renorm = true → 0 < s.head hs → kept = .vals [s.sum]) := by
+  have hsel : selLen s p hs = 0 := by
+    have h := selected_eq_take s p hs hnn hd
+    rw [hnone] at h
+    have hl := congrArg List.length h
+    have := selLen_le s p hs
+    simp at hl
+    have hne : s.length ≠ 0 := fun h => hs (List.length_eq_zero_iff.mp h)
+    omega
+  have hb := valid_bond p hp
+  have hk : keptLen s p hs = 1 := by
+    unfold keptLen; rw [hsel]
+    cases hmb : p.maxBond with
+    | none => simp [capMin]
+    | some d => have := hb d hmb; simp [capMin]; omega
+  have htake : s.take 1 = [s.head hs] := by
+    cases s with
+    | nil => exact absurd rfl hs
+    | cons a t => simp
+  refine ⟨keptOf s p.renorm 1, ?_, ?_, ?_⟩
+  · rw [truncate_eq s p hs hnn hd hp, hk]; simp
+  · intro hr; simp [keptOf, hr, htake]
+  · intro hr hpos
+    have hsum : 0 < (s.take 1).sum := by simpa [htake] using hpos
+    simp only [keptOf, hr, if_true]
+    rw [renormalise_pos s 1 hsum, htake]
+    have hne : s.head hs ≠ 0 := by grind
+    simp [renormFactor, htake, Rat.div_mul_cancel hne]
+
+/-- **Renormalisation.**  With `renorm` and a non-zero spectrum the kept prefix is multiplied as a
+    whole by `c = Σs / Σs[:k] ≥ 1`, and afterwards sums to `Σs` (the ℓ¹ norm is restored — the sum,
+    not the Euclidean norm the docstring suggests). -/
+theorem renorm_scale (s : List Rat) (p : Params) (hs : s ≠ []) (hnn : NonNeg s) (hd : Desc s)
+    (hp : p.Valid) (hr : p.renorm = true) (hpos : 0 < s.head hs) :
+    ∃ k kept, truncate s p = some (.vals kept, s.drop k) ∧
+      kept = (s.take k).map (renormFactor s k * ·) ∧ kept.sum = s.sum ∧ 1 ≤ renormFactor s k := by
+  obtain ⟨h1, _, _⟩ := keptLen_bounds s p hs hp
+  have hsum : 0 < (s.take (keptLen s p hs)).sum :=
+    rat_lt_of_lt_of_le hpos (head_le_sum_take s hs hnn _ h1)
+  refine ⟨keptLen s p hs, _, ?_, rfl, renorm_sum s _ hsum, renormFactor_ge_one s hnn _ hsum⟩
+  rw [truncate_eq s p hs hnn hd hp]
+  simp only [keptOf, hr, if_true]
+  rw [renormalise_pos s _ hsum]
+
+/-- Validation accepts exactly: `max_bond_dim` a positive integer or `+inf`, and each tolerance
+    non-negative, `-inf` or `+inf`. -/
+theorem validation_spec (b : BondArg) (rel tot : Tol) :
+    checkParams b rel tot = .ok ↔
+      ((∃ z : Int, b = .int z ∧ 0 < z) ∨ b = .inf) ∧
+      (∀ q, rel = .fin q → 0 ≤ q) ∧ (∀ q, tot = .fin q → 0 ≤ q) := by
+  cases b <;> cases rel <;> cases tot <;>
+    simp [checkParams, Tol.rejected] <;> grind
+
+/-! ### Error accumulation over successive truncations (abstract; tree level is partial) -/
+
+/-- **L4 (telescoping).**  Additive maps `P₀,…,P_{k-1}` that are contractions, each moving the
+    original vector by at most `δ j`: applying all of them moves it by at most `Σ δ j`.
+    (Projectors inserted on *different* bonds of the same tensor, as `truncate_node` does for
+    the children of one node, are of this kind.) -/
+theorem trunc_error_telescoping {E : Type*} [SeminormedAddCommGroup E] (P : ℕ → E →+ E)
+    (δ : ℕ → ℝ) (k : ℕ) (x : E) (hc : ∀ j, j < k → ∀ y, ‖P j y‖ ≤ ‖y‖)
+    (hd : ∀ j, j < k → ‖x - P j x‖ ≤ δ j) :
+    ‖x - applyUpTo (fun j => (P j : E → E)) k x‖ ≤ ∑ j ∈ Finset.range k, δ j :=
+  telescoping P δ k x hc hd
+
+/-- **Error bound, partial.**  If the `j`-th local replacement changes the current state by at most
+    `N · δ j` (`δ j` the weight discarded there, `N` a bound on the norm of the rest of the
+    network), the state after `k` replacements differs from the original by at most `N · Σ δ j`.
+    *Missing* (validated numerically on every run, not proved): that every replacement performed by
+    `recursive_truncation` / `svd_truncation` satisfies the hypothesis with `N = max(1, ‖ψ‖)` and
+    `δ j` = the discarded singular values of that step. -/
+theorem trunc_error_bound_partial {E : Type*} [SeminormedAddCommGroup E] (ψ : ℕ → E) (δ : ℕ → ℝ)
+    (N : ℝ) (k : ℕ) (h : ∀ j, j < k → ‖ψ j - ψ (j + 1)‖ ≤ N * δ j) :
+    ‖ψ 0 - ψ k‖ ≤ N * ∑ j ∈ Finset.range k, δ j := by
+  rw [Finset.mul_sum]
+  exact dist_chain ψ (fun j => N * δ j) k h
+
+/-! ### Non-vacuity and boundary behaviour: concrete instances -/
+
+/-- Parameter objects used below. -/
+def exP (D : Option Nat) (rel tot : Tol) (renorm sumT sumR : Bool) : Params :=
+  { maxBond := D, relTol := rel, totalTol := tot, renorm := renorm, sumTrunc := sumT, sumRenorm := sumR }
+
+-- hypotheses of the error bound are satisfiable with a non-trivial instance (E = ℝ)
+example : ∀ j, j < 2 → ‖(fun n : ℕ => (1 : ℝ) - n) j - (fun n : ℕ => (1 : ℝ) - n) (j + 1)‖
+    ≤ 2 * (fun _ => (1 / 2 : ℝ)) j := by
+  intro j _
+  have e : ((1 : ℝ) - (j : ℝ)) - ((1 : ℝ) - ((j + 1 : ℕ) : ℝ)) = 1 := by push_cast; ring
+  simp only [e]
+  norm_num
+-- the rule selects nothing (hypothesis of `keep_one`)
+example : selected [4, 2, 1] (exP (some 5) (.fin 1) (.fin 0) false false true) = [] := by
+  decide +kernel
+-- `Fits`: tail {3} of [4,3] fits tolerance 3, the whole vector does not
+example : Fits [4, 3] (.fin 3) false 1 ∧ ¬ Fits [4, 3] (.fin 3) false 0 := by decide +kernel
+
+-- hypotheses are satisfiable (ties, zeros)
+example : Desc [4, 2, 2, 1, 0, 0] ∧ NonNeg [4, 2, 2, 1, 0, 0] ∧
+    (exP (some 3) (.fin (1/2)) .ninf false false true).Valid := by
+  refine ⟨by decide +kernel, by decide +kernel, by decide +kernel⟩
+-- tie at the threshold: rel·s₀ = 2, values equal to 2 are NOT kept (strictly above)
+example : truncate [4, 2, 2, 1] (exP none (.fin (1/2)) .ninf false false true)
+    = some (.vals [4], [2, 2, 1]) := by decide +kernel
+-- just below the tie: kept
+example : truncate [4, 2, 2, 1] (exP none (.fin (1/4)) .ninf false false true)
+    = some (.vals [4, 2, 2], [1]) := by decide +kernel
+-- max(rel·s₀, tot): the larger threshold wins
+example : truncate [4, 2, 2, 1] (exP none (.fin (1/4)) (.fin 3) false false true)
+    = some (.vals [4], [2, 2, 1]) := by decide +kernel
+-- both tolerances -inf, D = ∞: nothing is discarded, zeros included
+example : truncate [4, 2, 0, 0] (exP none .ninf .ninf false false true)
+    = some (.vals [4, 2, 0, 0], []) := by decide +kernel
+-- D caps the prefix
+example : truncate [4, 2, 2, 1] (exP (some 2) .ninf .ninf false false true)
+    = some (.vals [4, 2], [2, 1]) := by decide +kernel
+-- tolerance 0: zeros are dropped (strict comparison), D = ∞
+example : truncate [4, 2, 0, 0] (exP none (.fin 0) (.fin 0) false false true)
+    = some (.vals [4, 2], [0, 0]) := by decide +kernel
+-- nothing survives: keep the largest
+example : truncate [4, 2, 1] (exP (some 5) (.fin 1) (.fin 0) false false true)
+    = some (.vals [4], [2, 1]) := by decide +kernel
+example : truncate [4, 2, 1] (exP (some 5) .pinf (.fin 0) false false true)
+    = some (.vals [4], [2, 1]) := by decide +kernel
+-- single value; all-zero spectrum with rel_tol = -inf (IEEE nan cutoff): one zero is kept
+example : truncate [3] (exP (some 1) (.fin 0) (.fin 0) false false true) = some (.vals [3], []) := by
+  decide +kernel
+example : truncate [0, 0] (exP none .ninf .ninf false false true) = some (.vals [0], [0]) := by
+  decide +kernel
+-- sum mode, absolute: tail {3} has weight 9 = 3², fits (not strictly above) -> discarded
+example : truncate [4, 3] (exP none (.fin 0) (.fin 3) false true false) = some (.vals [4], [3]) := by
+  decide +kernel
+example : truncate [4, 3] (exP none (.fin 0) (.fin (299/100)) false true false)
+    = some (.vals [4, 3], []) := by decide +kernel
+-- sum mode, relative: tails of [1,1,1,1] weigh 1/4, 1/2, ...; tol² = 1/4 ties with the first
+example : truncate [1, 1, 1, 1] (exP none (.fin 0) (.fin (1/2)) false true true)
+    = some (.vals [1, 1, 1], [1]) := by decide +kernel
+-- sum mode with total_tol = -inf: (-inf)² = +inf, every tail fits, the largest value is kept
+example : truncate [4, 3, 1] (exP none (.fin 0) .ninf false true true) = some (.vals [4], [3, 1]) := by
+  decide +kernel
+-- sum mode, max_bond_dim hit: the cap applies to the ORIGINAL vector
+example : truncate [4, 3, 2, 1] (exP (some 2) (.fin 0) (.fin 0) false true false)
+    = some (.vals [4, 3], [2, 1]) := by decide +kernel
+-- renormalisation: [4,2] scaled by 7/6 sums to 7 again
+example : truncate [4, 2, 1] (exP (some 2) .ninf .ninf true false true)
+    = some (.vals [14/3, 7/3], [1]) := by decide +kernel
+/-- Witness for observation F-C10a: renormalising an all-zero spectrum returns NaN. -/
+theorem renorm_zero_nan :
+    truncate [0, 0] (exP none (.fin 0) (.fin 0) true false true) = some (.nans 1, [0]) := by
+  decide +kernel
+-- the empty vector is rejected
+example : truncate [] (exP none (.fin 0) (.fin 0) false false true) = none := by decide +kernel
+-- validation
+example : checkParams (.int 0) (.fin 0) (.fin 0) = .valueError "max_bond_dim" := by decide +kernel
+example : checkParams .otherFloat (.fin 0) (.fin 0) = .typeError := by decide +kernel
+example : checkParams .inf (.fin (-1)) (.fin 0) = .valueError "rel_tol" := by decide +kernel
+example : checkParams .inf .ninf .ninf = .ok := by decide +kernel
+
 end Ptn.C10
